@@ -347,24 +347,25 @@ class ClientWebSocketResponse(Generic[_DecodeText]):
             self._response.close()
             return True
 
-        while True:
-            try:
-                async with async_timeout.timeout(self._timeout.ws_close):
+        try:
+            # One deadline for the whole closing handshake: messages the
+            # peer keeps sending must not extend it.
+            async with async_timeout.timeout(self._timeout.ws_close):
+                while True:
                     msg = await self._reader.read()
-            except asyncio.CancelledError:
-                self._close_code = WSCloseCode.ABNORMAL_CLOSURE
-                self._response.close()
-                raise
-            except Exception as exc:
-                self._close_code = WSCloseCode.ABNORMAL_CLOSURE
-                self._exception = exc
-                self._response.close()
-                return True
-
-            if msg.type is WSMsgType.CLOSE:
-                self._close_code = msg.data
-                self._response.close()
-                return True
+                    if msg.type is WSMsgType.CLOSE:
+                        self._close_code = msg.data
+                        self._response.close()
+                        return True
+        except asyncio.CancelledError:
+            self._close_code = WSCloseCode.ABNORMAL_CLOSURE
+            self._response.close()
+            raise
+        except Exception as exc:
+            self._close_code = WSCloseCode.ABNORMAL_CLOSURE
+            self._exception = exc
+            self._response.close()
+            return True
 
     @overload
     async def receive(
